@@ -581,6 +581,59 @@ func (c *FnCtx) assignedVars(n ast.Node) []types.Object {
 				add(x.Value)
 			}
 		case *ast.CallExpr:
+			// a callee with a contract only modifies what its contract lists
+			var cspec *FuncSpec
+			var cfn *types.Func
+			switch f := unparen(x.Fun).(type) {
+			case *ast.Ident:
+				cfn, _ = c.info.ObjectOf(f).(*types.Func)
+			case *ast.SelectorExpr:
+				if sel, ok := c.info.Selections[f]; ok {
+					if sel.Kind() == types.MethodVal {
+						cfn, _ = sel.Obj().(*types.Func)
+					} else if ts, ok := c.spec.Calls[exprString(f)]; ok && len(ts) >= 1 {
+						if fi := c.eng.Funcs[c.spec.Pkg+"."+ts[0]]; fi != nil {
+							cfn = fi.Obj
+						}
+					}
+				} else {
+					cfn, _ = c.info.ObjectOf(f.Sel).(*types.Func)
+				}
+			}
+			if cfn != nil {
+				cspec = c.eng.Contracts.Funcs[c.eng.keyOfFunc(cfn)]
+			}
+			if cspec != nil {
+				recvName, pnames, _, _ := specParamNames(cspec.Decl)
+				mods := map[string]bool{}
+				for _, m := range cspec.Modifies {
+					mods[m] = true
+				}
+				if se, ok := unparen(x.Fun).(*ast.SelectorExpr); ok && recvName != "" && mods[recvName] {
+					if sel, ok := c.info.Selections[se]; ok && sel.Kind() == types.MethodVal {
+						add(se.X)
+						if id, ok := unparen(se.X).(*ast.Ident); ok {
+							if r, ok := ptrRoot[c.info.ObjectOf(id)]; ok && r != nil {
+								set[r] = true
+							}
+						}
+					}
+				}
+				for i, a := range x.Args {
+					if i < len(pnames) && mods[pnames[i]] {
+						add(a)
+						if ue, ok := unparen(a).(*ast.UnaryExpr); ok && ue.Op == token.AND {
+							add(ue.X)
+						}
+						if id, ok := unparen(a).(*ast.Ident); ok {
+							if r, ok := ptrRoot[c.info.ObjectOf(id)]; ok && r != nil {
+								set[r] = true
+							}
+						}
+					}
+				}
+				return true
+			}
 			// method call with pointer receiver on addressable operand, or pointer args
 			if se, ok := unparen(x.Fun).(*ast.SelectorExpr); ok {
 				if sel, ok := c.info.Selections[se]; ok && sel.Kind() == types.MethodVal {
